@@ -405,7 +405,7 @@ def c14(run, args):
     # (1) the contract model: both vias, every status the contract allows, all statements of the property as action properties
     run.model_check("GenRest", gen_cfg("mc", 2 if quick else 3), label="GenRest(contract model)")
     # (2) transition tour: every (store state, request) edge of the bounded state graph once
-    tour = run.generate("GenRest", gen_cfg("tour", 2 if quick else 3), workers=4)
+    tour = run.generate("GenRest", gen_cfg("tour", 2 if quick else 3), workers=1)
     merged = merge_tour(tour)
     # (3) long simulated histories
     nsim = 60 if quick else 400
